@@ -57,6 +57,48 @@ class FakeTCP:
         return ("198.51.100.77", 50000) if name == "peername" else default
 
 
+class SlowTCP(FakeTCP):
+    """a TCP transport with asyncio's write flow control: bytes written are buffered and leave `rate` bytes per round; above the
+    high-water mark the protocol's pause_writing() is called, below the low-water mark resume_writing(); close() flushes the
+    buffer before the connection actually closes (as asyncio's transports do)"""
+    HIGH, LOW = 65536, 16384
+
+    def __init__(self, rate=20000):
+        super().__init__()
+        self.buf = b""
+        self.closing = False
+        self.paused = False
+        self.rate = rate
+        self.protocol = None
+        self.closed = False
+
+    def write(self, data):
+        if self.closing:
+            return
+        self.buf += bytes(data)
+        if len(self.buf) > self.HIGH and not self.paused:
+            self.paused = True
+            getattr(self.protocol, "pause_writing", lambda: None)()
+
+    def drain(self):
+        if self.buf:
+            self.chunks.append(self.buf[:self.rate])
+            self.buf = self.buf[self.rate:]
+        if self.paused and len(self.buf) <= self.LOW:
+            self.paused = False
+            getattr(self.protocol, "resume_writing", lambda: None)()
+        if self.closing and not self.buf:
+            self.closed = True
+
+    def close(self):
+        self.closing = True
+        if not self.buf:
+            self.closed = True
+
+    def is_closing(self):
+        return self.closing
+
+
 def client_conn(min_version=None, max_version=None, legacy=False):
     ctx = SSL.Context(SSL.TLS_CLIENT_METHOD)
     ctx.set_verify(SSL.VERIFY_NONE, lambda *a: True)
@@ -71,7 +113,7 @@ def client_conn(min_version=None, max_version=None, legacy=False):
     return c
 
 
-async def exchange(handler, request=b"gemini://localhost/x\r\n", cut=None, client=None, plaintext_first=None, server_ctx=None):
+async def exchange(handler, request=b"gemini://localhost/x\r\n", cut=None, client=None, plaintext_first=None, server_ctx=None, tcp=None):
     """Returns dict(plaintext received by the client, eof, handler calls, server object)."""
     inner_box = []
 
@@ -80,7 +122,8 @@ async def exchange(handler, request=b"gemini://localhost/x\r\n", cut=None, clien
         inner_box.append(p)
         return p
     server = tp.TLSServerProtocol(factory, server_ctx or server_context())
-    tcp = FakeTCP()
+    tcp = tcp or FakeTCP()
+    tcp.protocol = server
     server.connection_made(tcp)
     if plaintext_first is not None:
         server.data_received(plaintext_first)
@@ -134,6 +177,10 @@ async def exchange(handler, request=b"gemini://localhost/x\r\n", cut=None, clien
             pass
         await asyncio.sleep(0)
         # server -> client
+        if hasattr(tcp, "drain"):
+            before_ = len(tcp.buf)
+            tcp.drain()
+            progressed = progressed or len(tcp.buf) != before_ or bool(tcp.chunks)
         while tcp.chunks:
             cli.bio_write(tcp.chunks.pop(0))
             progressed = True
@@ -188,6 +235,20 @@ def bank_c06():
                             observed=dict(received_bytes=len(got), expected_bytes=len(want), first_difference=next((i for i in range(min(len(got), len(want))) if got[i] != want[i]), min(len(got), len(want))),
                                           eof=r["eof"], tcp_closed=r["tcp"].closed, handshake_error=r["handshake_error"]),
                             clause="the client receives the header followed by exactly the body bytes, then end of stream (PyOpenSSL back end)")
+    # a slow peer: the TCP transport applies write flow control (pause_writing / resume_writing) while a large body goes out
+    for n, rate in ((70000, 20000), (200000, 20000), (1048576, 60000), (300000, 5000)):
+        body, wire = body_of(n, "bytes")
+
+        def handler3(req, _b=body):
+            return GeminiResponse(status=20, meta="application/octet-stream", body=_b)
+        r = asyncio.run(exchange(handler3, tcp=SlowTCP(rate)))
+        want = b"20 application/octet-stream\r\n" + wire
+        if r["plaintext"] != want or not (r["eof"] or r["tcp"].closed):
+            got = r["plaintext"]
+            return dict(confirmed=True, input=dict(body_kind="bytes", body_bytes=len(wire), peer=f"slow reader: TCP write buffer drains {rate} bytes per round, flow control active"),
+                        observed=dict(received_bytes=len(got), expected_bytes=len(want), first_difference=next((i for i in range(min(len(got), len(want))) if got[i] != want[i]), min(len(got), len(want))),
+                                      eof=r["eof"], tcp_closed=r["tcp"].closed, handshake_error=r["handshake_error"]),
+                        clause="the client receives the header followed by exactly the body bytes, then end of stream (PyOpenSSL back end), also when the peer reads slowly")
     # text bodies are UTF-8 on the wire whatever META announces
     for meta in ("text/plain; charset=iso-8859-1", "text/gemini; charset=utf-16", "text/plain; charset=x-klingon", "text/plain; charset=us-ascii", "text/gemini; lang=fr", "text/plain;charset=UTF-8"):
         body = "h\u00e9llo \u20ac w\u00f6rld \u4e16\u754c\n" * 3
